@@ -302,26 +302,28 @@ def suite_fd(ctx):
             scale = 0.02/np.max(np.abs(v))      # 2 % change in the parameter
             if mapping in ('Conductivity', 'Resistivity'):
                 scale *= float(np.min(np.abs(x0)))
-            errs = []
+            errs, fds = [], []
             for h in [scale, scale/2]:
                 with warnings.catch_warnings():
                     warnings.simplefilter('ignore')
                     sp = w.sim(w.model_at(x0+h*v))
                     sm = w.sim(w.model_at(x0-h*v))
                     mp_, mm = float(sp.misfit), float(sm.misfit)
-                errs.append(abs((mp_-mm)/(2*h) - gv))
-            rel = errs[1]/max(abs(gv), 1e-300)
+                fds.append((mp_-mm)/(2*h))
+                errs.append(abs(fds[-1] - gv))
+            # Richardson extrapolation removes the h^2 term of the identity
+            rel = abs((4*fds[1]-fds[0])/3 - gv)/max(abs(gv), 1e-300)
             order = np.log2(errs[0]/errs[1]) if errs[1] > 0 else np.inf
             orders.append(round(float(order), 2))
             # second order (unless already at the solver-tolerance floor)
             floor = 1e-7*abs(gv)
-            if rel > 2e-3 or (errs[1] > floor and order < 1.6):
+            if rel > 1e-3 or (errs[1] > floor and order < 1.6):
                 bad.append((tag, d, gv, errs, order))
                 ctx.violation(
                     'gradient-not-derivative',
                     f'world {tag}, direction {d}: <gradient, v> = {gv!r}; '
                     f'central differences differ by {errs} at steps h, h/2 '
-                    f'(observed order {order:.2f}, relative {rel:.3g})',
+                    f'(observed order {order:.2f}, extrapolated relative error {rel:.3g})',
                     {'tag': repr(tag), 'direction': d, 'misfit': m0})
             ctx.count(key=('fd', tag, d))
     ctx.cov['fd_orders'] = orders
